@@ -430,10 +430,10 @@ static void gen_case(Out& out, Rng& g, const std::string& dir) {
     int which = (int)g.below(10);
     int target;
     int r = (int)g.below(100);
-    if (r < 55) target = (int)g.range(6, 60);
-    else if (r < 85) target = (int)g.range(60, 400);
-    else if (r < 97) target = (int)g.range(400, 2000);
-    else target = g_thorough ? (int)g.range(2000, 5000) : (int)g.range(1000, 2000);
+    if (r < 60) target = (int)g.range(6, 60);
+    else if (r < 88) target = (int)g.range(60, 400);
+    else if (r < 97) target = (int)g.range(400, g_thorough ? 2000 : 1200);
+    else target = g_thorough ? (int)g.range(2000, 5000) : (int)g.range(1200, 2000);
     if (S == 1000) target = std::min(target, 60);  // decimal frame: big integers in the oracle
     std::string shape;
     IPoly ip = big_shape(g, target, shape);
@@ -450,7 +450,7 @@ static void gen_case(Out& out, Rng& g, const std::string& dir) {
         else limit = 51 + g.below(150);
         if (ip.size() > 600 && limit >= 5 && limit < 8 && !g_thorough) limit = 8 + g.below(40);
         run_frac(out, g, P, limit, S, shape);
-    } else if (which < 9) {
+    } else if (which < 8) {
         bool x_axis = g.coin();
         int64_t lo = INT64_MAX, hi = INT64_MIN;
         for (auto& v : ip) {
@@ -488,6 +488,7 @@ static void gen_case(Out& out, Rng& g, const std::string& dir) {
             polys.push_back(small);
         }
         uint64_t limit = g.chance(15) ? g.below(5) : 5 + g.below(196);
+        if (g.coin() && ip.size() > 12) limit = std::max<uint64_t>(5, ip.size() - 1 - g.below(ip.size() / 2));  // just above the limit
         run_gds(out, g, polys, limit, g.coin(), dir, shape);
     }
 }
@@ -578,7 +579,7 @@ int main(int argc, char** argv) {
         return 0;
     }
     for (auto& c : load_corpus(argc > 4 ? argv[4] : NULL)) run_case(out, g, c.first, c.second);
-    long N = g_thorough ? 6000 : 220;
+    long N = g_thorough ? 6000 : 160;
     for (long i = 0; i < N; i++) gen_case(out, g, argv[3]);
     out.close();
     return 0;
